@@ -173,7 +173,7 @@ fn check_eq_row(u: &[T], i: usize) -> (Vec<Violation>, u64, u64) {
 }
 
 fn elem_values() -> Vec<T> {
-    vec![T::I(1), T::I(2), T::S("a".into()), T::C('c'), T::B(true), T::V(0), T::Nil, T::list(vec![T::I(1)]), T::list(vec![T::Nil]), T::cons(T::I(1), T::I(2)), T::Cmp(Tag::Pair, vec![T::I(1), T::V(0)])]
+    vec![T::I(1), T::I(2), T::S("a".into()), T::C('c'), T::B(true), T::V(0), T::Nil, T::list(vec![T::I(1)]), T::list(vec![T::Nil]), T::cons(T::I(1), T::I(2)), T::Cmp(Tag::Pair, vec![T::I(1), T::V(0)]), T::S("say \"hi\"\\\n\t".into())]
 }
 
 fn tails() -> Vec<Option<T>> {
@@ -372,7 +372,7 @@ fn check_list(items: &[T], tail: &Option<T>, index: usize) -> Vec<Violation> {
 
 pub fn run(ctx: &mut Ctx) {
     let quick = ctx.quick();
-    ctx.set("rule", json!("E3: (a) every ordered pair of the term universe (every literal kind, two variables and second constructions of them, [], proper / improper / nested lists, five compound kinds): LTerm == equals structural equality with variable identity, is symmetric, and equal terms hash identically under SipHash and under a hasher that records write boundaries; comparisons with Rust literals agree. (b) every element sequence of length 0..4 (thorough: 0..5) over 11 element values (incl. [], nested lists, an improper pair, a compound) with no tail and 4 improper tails: from_vec / from_array / collect / improper_from_vec / improper_from_array, iter / IntoIterator (fused), Index, IndexMut and iter_mut (right element, value semantics), head / tail, is_list / is_empty / is_improper, contains, extend, Display against the Vec model with the improper tail as final element. distinct_nontrivial = equal pairs of distinct constructions + lists."));
+    ctx.set("rule", json!("E3: (a) every ordered pair of the term universe (every literal kind, two variables and second constructions of them, [], proper / improper / nested lists, five compound kinds): LTerm == equals structural equality with variable identity, is symmetric, and equal terms hash identically under SipHash and under a hasher that records write boundaries; comparisons with Rust literals agree. (b) every element sequence of length 0..4 (thorough: 0..5) over 12 element values (incl. [], nested lists, an improper pair, a compound, a string whose text contains quotes, a backslash, a newline and a tab — Display shows a literal's text as it is) with no tail and 4 improper tails: from_vec / from_array / collect / improper_from_vec / improper_from_array, iter / IntoIterator (fused), Index, IndexMut and iter_mut (right element, value semantics), head / tail, is_list / is_empty / is_improper, contains, extend, Display against the Vec model with the improper tail as final element. distinct_nontrivial = equal pairs of distinct constructions + lists."));
     let u = term_universe(false);
     let rows: Vec<usize> = match &ctx.replay {
         Some(r) if r.family == "c21-eq" => vec![r.index],
